@@ -60,7 +60,7 @@ def eval_pred(s, env):
     if k == "bin":
         a, b = eval_pred(s[2], env), eval_pred(s[3], env)
         return {"&": lambda: a & b, "|": lambda: a | b, "+": lambda: a + b, "-": lambda: a - b, ">>": lambda: a >> b,
-                "<<": lambda: a << b}[s[1]]()
+                "<<": lambda: a << b, "%": lambda: a % b, "//": lambda: a // b, "*": lambda: a * b, "^": lambda: a ^ b}[s[1]]()
     raise AnalysisError("predicate %s not evaluable" % pretty(s)[:60])
 
 
